@@ -256,7 +256,9 @@ class DM14Server:
             return
 
         length = min(data[0], len(data) - 1)
-        self.data_queue.put(data[1 : length + 1])
+        if self.state == ResponseState.WAIT_FOR_DM16:
+            # data of a write; on a read this call is only the transport acknowledge of our own DM16
+            self.data_queue.put(data[1 : length + 1])
         self._ca.unsubscribe(self._parse_dm16)
         self._ca.subscribe(self.parse_dm14)
         self.state = ResponseState.SEND_OPERATION_COMPLETE
